@@ -226,7 +226,7 @@ def _dump_domain(c):
     p = c.a.params
     return z3.And(valid_config(c, c.a.config),
                   z3.Or(z3.Not(V.truthy(c.a.version)), is_version(c.a.version)),
-                  implies(_is_fault(c, p), z3.And(Val.ref(p) < ALLOC0, Val.ref(p) >= 0)),
+                  implies(_is_fault(c, p), Val.ref(p) >= 0),
                   z3.Or(V.is_none(c.a.is_response), V.is_bool(c.a.is_response)),
                   z3.Or(V.is_none(c.a.is_notify), V.is_bool(c.a.is_notify)))
 
@@ -245,6 +245,17 @@ def _translated(c, params):
 
 
 def _dump_post(c):
+    memo = getattr(c, "_dump_post_memo", None)
+    if memo is None:
+        memo = _dump_post_build(c)
+        try:
+            c._dump_post_memo = memo
+        except Exception:
+            pass
+    return memo
+
+
+def _dump_post_build(c):
     p0, m, rid = c.a.params, c.a.methodname, c.a.rpcid
     isresp, isnot = V.truthy(c.a.is_response), V.truthy(c.a.is_notify)
     p = z3.If(z3.And(z3.Not(isresp), V.is_none(p0)), V.empty_list(), p0)
@@ -293,7 +304,8 @@ def _dump_post(c):
         ("ids_generated_for_requests_only", implies(z3.Or(isresp, _is_fault(c, p), z3.Not(m_str), c.raised, supplied(rid)),
                                                     c.gnew("uuid_ctr") == n)),
         ("translator_only_when_enabled", implies(z3.Or(_is_fault(c, p), z3.Not(V.truthy(c.old(c.a.config, "use_jsonclass")))),
-                                                 c.gnew("call_log") == c.gold("call_log"))),
+                                                 c.gnew("xlate_log") == c.gold("xlate_log"))),
+        ("raises_exceptions_only", implies(c.raised, c.raises(Exception))),
         ("no_translation_no_failure", implies(
             z3.And(z3.Not(V.truthy(c.old(c.a.config, "use_jsonclass"))), m_str, listish, z3.Not(isresp)), c.returns)),
     ]
@@ -301,7 +313,8 @@ def _dump_post(c):
 
 _DUMP_LABELS = ["rejects_scalar_params", "fault_becomes_error", "neither_request_nor_response", "response_needs_id",
                 "response_members", "request_members", "notification_members", "raises_only_from_translator",
-                "ids_generated_for_requests_only", "translator_only_when_enabled", "no_translation_no_failure"]
+                "ids_generated_for_requests_only", "translator_only_when_enabled", "raises_exceptions_only",
+                "no_translation_no_failure"]
 
 
 def _dump_clause(i):
@@ -313,7 +326,7 @@ Contract(
     kinds={"config": "obj:" + CONFIG},
     requires=[("domain", _dump_domain)],
     ensures=[(lab, _dump_clause(i), ("C14", "C08") if "translat" in lab else ("C14",)) for i, lab in enumerate(_DUMP_LABELS)],
-    modifies=[Ghost("uuid_ctr"), Ghost("call_log")],
+    modifies=[Ghost("uuid_ctr"), Ghost("xlate_log")],
     props=("C14",),
 )
 
@@ -347,9 +360,10 @@ Contract(
             [("ghost:" + lab, (lambda i: lambda c: (lambda c2: _dump_post(c2)[i][1])(
                 _ghost_view(_dumps_as_dump_ctx(c), c)))(i), ("C14",))
              for i, lab in enumerate(_DUMP_LABELS) if lab in ("ids_generated_for_requests_only", "translator_only_when_enabled")] +
+            [("raises_exceptions_only", lambda c: implies(c.raised, c.raises(Exception)), ("C14", "C02"))] +
             [("fault_only_type_error", lambda c: implies(z3.And(c.raised, _is_fault(c, c.a.params)), c.raises(TypeError)), ("C14",))] +
             [("rejections_propagate", lambda c: implies(_dumps_rejects(c), c.raised), ("C14",))],
-    modifies=[Ghost("uuid_ctr"), Ghost("call_log"), Ghost("last_dumped")],
+    modifies=[Ghost("uuid_ctr"), Ghost("xlate_log"), Ghost("last_dumped")],
     props=("C14",),
 )
 
@@ -396,7 +410,7 @@ Contract(
                                                         c.returns),
                                                  c.ret == jcl(eff_classes(c.old(c.a.config, "classes")), c.a.data)), ("C14", "C07")),
     ],
-    modifies=[Ghost("imports"), Ghost("constructs"), Ghost("call_log"), Param("data")],
+    modifies=[Ghost("imports"), Ghost("constructs"), Ghost("xlate_log"), Param("data")],
     props=("C14", "C08"),
 )
 
@@ -409,7 +423,7 @@ Contract(
         ("invalid_json_raises", lambda c: implies(z3.And(c.a.data != V.S(""), z3.Not(json_text(Val.s(c.a.data)))),
                                                   z3.And(c.raises(ValueError), c.gnew("imports") == c.gold("imports"),
                                                          c.gnew("constructs") == c.gold("constructs"),
-                                                         c.gnew("call_log") == c.gold("call_log"))), ("C14", "C05")),
+                                                         c.gnew("xlate_log") == c.gold("xlate_log"))), ("C14", "C05")),
         ("inert_when_off", lambda c: implies(z3.And(c.a.data != V.S(""), json_text(Val.s(c.a.data)),
                                                     z3.Not(V.truthy(c.old(c.a.config, "use_jsonclass")))),
                                              z3.And(c.returns, c.ret == jloads_of(Val.s(c.a.data)),
@@ -421,6 +435,6 @@ Contract(
                                                        c.ret == jcl(eff_classes(c.old(c.a.config, "classes")),
                                                                     jloads_of(Val.s(c.a.data))))), ("C14", "C07")),
     ],
-    modifies=[Ghost("imports"), Ghost("constructs"), Ghost("call_log")],
+    modifies=[Ghost("imports"), Ghost("constructs"), Ghost("xlate_log")],
     props=("C14", "C08"),
 )
